@@ -221,6 +221,11 @@ def enum_ns(tier, seed):
         for usedim in (0, 1):
             for form in ("batch", "single"):
                 yield (m, n, usedim, form)
+    # Gaussian-integer entries {0, 1, i, -1, 1+i}
+    for (m, n) in [(1, 2), (1, 3), (2, 2), (2, 3)] + ([(3, 2), (1, 4)] if tier == "thorough" else []):
+        for usedim in (0, 1):
+            for form in ("batch", "single"):
+                yield (m, n, usedim, form, "gauss")
 
 
 def _exact_ranks(A):
@@ -232,10 +237,13 @@ def _exact_ranks(A):
 _RANK_CACHE = {}
 
 
-def _family_ns(m, n):
-    key = (m, n)
+def _family_ns(m, n, gauss=False):
+    key = (m, n, gauss)
     if key not in _RANK_CACHE:
-        A = np.array(list(itertools.product((-1, 0, 1), repeat=m * n)), dtype=np.int64).reshape(-1, m, n)
+        if gauss:
+            A = np.array(list(itertools.product((0, 1, 1j, -1, 1 + 1j), repeat=m * n)), dtype=complex).reshape(-1, m, n)
+        else:
+            A = np.array(list(itertools.product((-1, 0, 1), repeat=m * n)), dtype=np.int64).reshape(-1, m, n)
         # exact rank through integer minors (vectorised, exact): rank = largest k with a non-zero k-minor
         r = np.zeros(len(A), dtype=int)
         for k in range(1, min(m, n) + 1):
@@ -252,9 +260,10 @@ def _family_ns(m, n):
 def case_ns(ctx, cfg):
     from geometer.utils import null_space, orth
 
-    m, n, usedim, form = cfg
-    A, r = _family_ns(m, n)
-    # Fraction cross-check of the vectorised rank oracle on a slice
+    m, n, usedim, form = cfg[:4]
+    gauss = len(cfg) > 4
+    A, r = _family_ns(m, n, gauss)
+    # Fraction / Q(i) cross-check of the vectorised rank oracle on a slice
     for k in range(0, len(A), max(1, len(A) // 50)):
         assert X.rank(X.mat(A[k].tolist())) == r[k], "rank oracle broken"
     for rk in range(0, min(m, n) + 1):
@@ -264,7 +273,7 @@ def case_ns(ctx, cfg):
         if rk == 0 and not usedim:
             # the all-zero matrix: tolerance max(s)=0; still defined (kernel = everything)
             pass
-        ctx.tally(f"shape{m}x{n}:rank{rk}", len(sel))
+        ctx.tally(f"shape{m}x{n}:rank{rk}" + (":complex" if gauss else ""), len(sel))
         if form == "single":
             lim = 300 if ctx.tier == "quick" else 3000
             sel = sel[:lim]
@@ -272,7 +281,7 @@ def case_ns(ctx, cfg):
         else:
             batches = [sel]
         for B in batches:
-            Bf = B.astype(float)
+            Bf = B.astype(complex if gauss else float)
             ctx.state((m, n, rk, usedim, form, B.tobytes()))
             # null space
             kdim = n - rk
@@ -288,7 +297,7 @@ def case_ns(ctx, cfg):
                         G = np.swapaxes(N.conj(), -1, -2) @ N
                         ok = np.allclose(G, np.eye(kdim), atol=1e-9) and np.allclose(Bf @ N, 0, atol=1e-9)
                     if not ok:
-                        ctx.fail(f"null_space:{m}x{n}:rank{rk}:dim{usedim}", "null_space", {"A": B if B.ndim == 2 else B[0], "dim": kdim if usedim else None, "form": form}, f"orthonormal kernel basis of dimension {kdim}", N if N.ndim == 2 else N[0])
+                        ctx.fail(f"null_space:{m}x{n}:rank{rk}:dim{usedim}" + (":complex" if gauss else ""), "null_space", {"A": B if B.ndim == 2 else B[0], "dim": kdim if usedim else None, "form": form}, f"orthonormal kernel basis of dimension {kdim}", N if N.ndim == 2 else N[0])
             # orth
             if rk > 0:
                 args = (Bf, rk) if usedim else (Bf,)
@@ -303,7 +312,7 @@ def case_ns(ctx, cfg):
                         P = Q @ np.swapaxes(Q.conj(), -1, -2)
                         ok = np.allclose(G, np.eye(rk), atol=1e-9) and np.allclose(P @ Bf, Bf, atol=1e-9)
                     if not ok:
-                        ctx.fail(f"orth:{m}x{n}:rank{rk}:dim{usedim}", "orth", {"A": B if B.ndim == 2 else B[0], "dim": rk if usedim else None, "form": form}, f"orthonormal range basis of dimension {rk}", Q if Q.ndim == 2 else Q[0])
+                        ctx.fail(f"orth:{m}x{n}:rank{rk}:dim{usedim}" + (":complex" if gauss else ""), "orth", {"A": B if B.ndim == 2 else B[0], "dim": rk if usedim else None, "form": form}, f"orthonormal range basis of dimension {rk}", Q if Q.ndim == 2 else Q[0])
 
 
 # ---------------------------------------------------------------------------------------------------
